@@ -249,3 +249,13 @@ package ftp
 //@   check safety
 //@   ensures [released] socket.listener != nil ==> socket.listener.lclosed
 //@   modifies *
+//
+// ---- one data socket per session at a time (property C09) ----
+// A new data socket (PASV, EPSV, PORT, EPRT) replaces the session's current one only after that one has
+// been closed; useDataSocket is the only place where the field receives a value (structural single-writer
+// rule of C09), and Conn.Close releases the one held at the end of the session.
+//@ func (*Conn).useDataSocket
+//@   check safety
+//@   ensures [replaced-is-released] old(conn.dataConn) != nil ==> old(conn.dataConn).dsclosed
+//@   ensures [installed] conn.dataConn == socket
+//@   modifies *
